@@ -279,7 +279,10 @@ pub fn drive(a: &Args) -> i32 {
         }
         let long = long_every > 0 && seg % long_every == long_every - 1;
         // long segments use more keys: a lost record stays visible until its key is rewritten
-        let nk: u64 = if long { 16 } else { rng.gen_range(1..=4) };
+        let collide_seg = long_every > 0 && seg % long_every == long_every - 1 && (seg / long_every.max(1)) % 2 == 1;
+        // the burst schedule uses many keys: records lost with an overwritten rotated file must not all be
+        // masked by later writes to the same keys
+        let nk: u64 = if collide_seg { 300 } else if long { 16 } else { rng.gen_range(1..=4) };
         // long segments alternate between two schedules:
         //   "ckpt"    : checkpoints in the middle of each file and (clock advanced) after every other rotation, restarts
         //   "collide" : three rotations in a burst with no checkpoint and no restart in between (rotated-file names
